@@ -3,8 +3,17 @@
 import glob, json, os, re
 ROOT = os.path.dirname(os.path.dirname(os.path.abspath(__file__)))
 rows = []
+# runs with the final machinery; for seeds not re-run after the support-code refactor (unique-content statics,
+# 2026-10-04 afternoon) the last earlier run is used and marked as such
+files = {}
+for f in sorted(glob.glob("/tmp/seedrun_old/seedrun_*.out")) + sorted(glob.glob("/tmp/seedrun_old/regrun_*.out")):
+    files[os.path.basename(f)] = (f, "earlier run (before the support-code refactor)")
 for f in sorted(glob.glob("/tmp/seedrun_*.out")) + sorted(glob.glob("/tmp/regrun_*.out")):
-    m = re.match(r"/tmp/(?:seed|reg)run_(C\d+)_(.*)\.out", f)
+    if re.search(r"^(OK|VIOLATION|INCONCLUSIVE) property=", open(f, errors="replace").read(), re.M):
+        files[os.path.basename(f)] = (f, "final machinery")
+for base in sorted(files):
+    f, era = files[base]
+    m = re.match(r"(?:seed|reg)run_(C\d+)_(.*)\.out", base)
     prop, seed = m.group(1), m.group(2)
     txt = open(f, errors="replace").read()
     viol = re.findall(r"^VIOLATION property=\S+ replay=replays/\S+/(\S+?)_\d+$", txt, re.M)
@@ -26,16 +35,16 @@ for f in sorted(glob.glob("/tmp/seedrun_*.out")) + sorted(glob.glob("/tmp/regrun
     else:
         verdict = "run incomplete"
         by = []
-    rows.append((prop, seed, verdict, by))
+    rows.append((prop, seed, verdict, by, era))
     d = os.path.join(ROOT, "seeded", seed)
     mp = os.path.join(d, "meta.json")
     if os.path.exists(mp):
         meta = json.load(open(mp))
-        meta.setdefault("check_runs", {})[prop] = dict(verdict=verdict, harnesses=by, command="./check %s --patch seeded/%s/patch.diff" % (prop, seed))
+        meta.setdefault("check_runs", {})[prop] = dict(verdict=verdict, harnesses=by, run=era, command="./check %s --patch seeded/%s/patch.diff" % (prop, seed))
         meta["detected_by"] = by if viol else meta.get("detected_by")
         json.dump(meta, open(mp, "w"), indent=1)
 with open(os.path.join(ROOT, "seeded", "RESULTS.md"), "w") as out:
-    out.write("| seeded change | checked with | verdict | harnesses |\n|---|---|---|---|\n")
-    for prop, seed, verdict, by in rows:
-        out.write("| %s | ./check %s | %s | %s |\n" % (seed, prop, verdict, ", ".join(by)))
+    out.write("| seeded change | checked with | verdict | harnesses | run |\n|---|---|---|---|---|\n")
+    for prop, seed, verdict, by, era in rows:
+        out.write("| %s | ./check %s | %s | %s | %s |\n" % (seed, prop, verdict, ", ".join(by), era))
 print(open(os.path.join(ROOT, "seeded", "RESULTS.md")).read())
